@@ -15,7 +15,8 @@ Definition is_rm (ch : N) (k : key) (b : bcast) : bool :=
   (b_ch b =? ch) && key_eqb (p_key (b_pub b)) k && p_removed (b_pub b).
 Definition rm_count (l : list bcast) (ch : N) (k : key) : nat := length (filter (is_rm ch k) l).
 
-Definition is_clear (o : op) (ch : N) : bool := match o with OClear c => c =? ch | _ => false end.
+(* the operation discards channel ch wholesale (Clear, or the MetaTTL sweep, which may drop any channel) *)
+Definition is_clear (o : op) (ch : N) : bool := match o with OClear c => c =? ch | ORemoveChannels => true | _ => false end.
 
 (* the key left the state in this step, not through Clear *)
 Definition departed (h h' : hub) (o : op) (ch : N) (k : key) : bool :=
@@ -75,8 +76,10 @@ Proof.
   unfold add_keymode, add_commit, is_empty in H. cbv iota beta in H.
   destruct (has_stream (cf_mode cf)).
   - destruct (stream_add (c_stream c) (fun off => mkPub [] off (po_data o) (po_tags o) false (po_score o)) (cf_size cf)) as [s' off].
-    inversion H; subst. intros i k. etransitivity; [apply (same_entries_set_chan h1 ch c (set_stream c s') G1 eq_refl)|apply SE].
-  - inversion H; subst. intros i k. etransitivity; [apply (same_entries_set_chan h1 ch c c G1 eq_refl)|apply SE].
+    inversion H; subst. intros i k. destruct (ret_touch_view cf (set_chan h1 ch (set_stream c s')) ch) as (_ & _ & VE). rewrite VE.
+    etransitivity; [apply (same_entries_set_chan h1 ch c (set_stream c s') G1 eq_refl)|apply SE].
+  - inversion H; subst. intros i k. destruct (ret_touch_view cf (set_chan h1 ch c) ch) as (_ & _ & VE). rewrite VE.
+    etransitivity; [apply (same_entries_set_chan h1 ch c c G1 eq_refl)|apply SE].
 Qed.
 
 Lemma publish_empty_same : forall cfgs h ch o h' u,
@@ -138,18 +141,12 @@ Qed.
 Lemma entry_at_clear : forall h ch i k,
   entry_at (clear h ch) i k = if i =? ch then None else entry_at h i k.
 Proof.
-  intros. unfold clear, entry_at.
-  assert (G : get_chan (set_idem (match get_chan h ch with
-               | Some c => set_chans (set_exp h (fold_left (fun m kv => adel ck_eqb m (ch, fst kv)) (c_state c) (h_kexp h)) (h_queue h) (h_next h)) (adel N.eqb (h_chans h) ch)
-               | None => h end) (adel N.eqb (h_idem (match get_chan h ch with
-               | Some c => set_chans (set_exp h (fold_left (fun m kv => adel ck_eqb m (ch, fst kv)) (c_state c) (h_kexp h)) (h_queue h) (h_next h)) (adel N.eqb (h_chans h) ch)
-               | None => h end)) ch)) i = if i =? ch then None else get_chan h i).
-  { unfold get_chan. destruct (aget N.eqb (h_chans h) ch) eqn:G0; simpl.
-    - destruct (i =? ch) eqn:E.
-      + apply N.eqb_eq in E; subst. apply (aget_adel_same N.eqb).
-      + apply N.eqb_neq in E. apply (aget_adel_other N.eqb N_eqb_eq'); auto.
-    - destruct (i =? ch) eqn:E; auto. apply N.eqb_eq in E; subst. exact G0. }
-  rewrite G. destruct (i =? ch); reflexivity.
+  intros. unfold clear, entry_at, get_chan.
+  destruct (aget N.eqb (h_chans h) ch) as [c|] eqn:G0; simpl.
+  - destruct (i =? ch) eqn:E.
+    + apply N.eqb_eq in E; subst. rewrite (aget_adel_same N.eqb). reflexivity.
+    + apply N.eqb_neq in E. rewrite (aget_adel_other N.eqb N_eqb_eq'); auto.
+  - destruct (i =? ch) eqn:E; auto. apply N.eqb_eq in E; subst. rewrite G0. reflexivity.
 Qed.
 
 Lemma clear_Eff : forall h ch, Eff h (clear h ch) (OClear ch).
@@ -167,6 +164,11 @@ Lemma read_state_same : forall cfgs h ch rev cur lim k asc h' r,
 Proof.
   intros cfgs h ch rev cur lim k asc h' r H. unfold read_state in H.
   destruct (cfg_of cfgs ch) as [cf|ee]; [|inversion H; subst; auto].
+  destruct (touch_meta_view h ch (cf_mttl cf)) as (VG & VB & VE).
+  set (h0 := touch_meta h ch (cf_mttl cf)) in *.
+  cut (h_bcast h' = h_bcast h0 /\ forall i k', entry_at h' i k' = entry_at h0 i k').
+  { intros (A & B). split; [congruence|]. intros. rewrite B. apply VE. }
+  clearbody h0. clear VG VB VE h. rename h0 into h.
   destruct (get_chan h ch) as [c|] eqn:G.
   - destruct (get_state_chan c rev cur lim k asc) as [c1 r1] eqn:GS. inversion H; subst. split; auto.
     apply (same_entries_set_chan h ch c c1 G).
@@ -178,11 +180,16 @@ Proof.
     destruct rev as [[ro re]|]; [destruct (negb (re =? 0))|]; inversion H; subst; auto.
 Qed.
 
-Lemma read_stream_same : forall h ch since lim rv h' r,
-  read_stream h ch since lim rv = (h', r) ->
+Lemma read_stream_same : forall cfgs h ch since lim rv h' r,
+  read_stream cfgs h ch since lim rv = (h', r) ->
   h_bcast h' = h_bcast h /\ forall i k', entry_at h' i k' = entry_at h i k'.
 Proof.
-  intros h ch since lim rv h' r H. unfold read_stream in H.
+  intros cfgs h ch since lim rv h' r H. unfold read_stream in H.
+  destruct (touch_meta_view h ch (mttl_of cfgs ch)) as (VG & VB & VE).
+  set (h0 := touch_meta h ch (mttl_of cfgs ch)) in *.
+  cut (h_bcast h' = h_bcast h0 /\ forall i k', entry_at h' i k' = entry_at h0 i k').
+  { intros (A & B). split; [congruence|]. intros. rewrite B. apply VE. }
+  clearbody h0. clear VG VB VE h. rename h0 into h.
   destruct (get_chan h ch) as [c|] eqn:G.
   - destruct since as [[so se]|].
     + destruct (negb (se =? 0) && negb (se =? s_epoch (c_stream c))); [inversion H; subst; auto|].
@@ -313,6 +320,19 @@ Proof.
   splits; auto. intros. unfold entry_at, get_chan. rewrite EC. reflexivity.
 Qed.
 
+Lemma clear_stream_same : forall h ch, h_bcast (clear_stream h ch) = h_bcast h /\ forall i k, entry_at (clear_stream h ch) i k = entry_at h i k.
+Proof.
+  intros. unfold clear_stream. destruct (get_chan h ch) as [c|] eqn:G; auto. split; auto.
+  apply (same_entries_set_chan h ch c _ G). reflexivity.
+Qed.
+Lemma fold_clear_stream_same : forall l h,
+  h_bcast (fold_left clear_stream l h) = h_bcast h /\ forall i k, entry_at (fold_left clear_stream l h) i k = entry_at h i k.
+Proof.
+  induction l as [|x l IH]; intros h; simpl; auto.
+  destruct (IH (clear_stream h x)) as (A & B). destruct (clear_stream_same h x) as (C & D).
+  split; [congruence|]. intros. rewrite B. apply D.
+Qed.
+
 (* every step: removal broadcasts of a key = the key left the state (not by Clear) *)
 Theorem step_Eff : forall cfgs h o h' r, Inv h -> step cfgs h o = (h', r) -> Eff h h' o.
 Proof.
@@ -322,8 +342,8 @@ Proof.
   - inversion H; subst. apply clear_Eff.
   - destruct (read_state cfgs h ch rev cursor limit k asc) eqn:E. inversion H; subst.
     destruct (read_state_same _ _ _ _ _ _ _ _ _ _ E). apply Eff_same; auto.
-  - destruct (read_stream h ch since limit reverse) eqn:E. inversion H; subst.
-    destruct (read_stream_same _ _ _ _ _ _ _ E). apply Eff_same; auto.
+  - destruct (read_stream cfgs h ch since limit reverse) eqn:E. inversion H; subst.
+    destruct (read_stream_same _ _ _ _ _ _ _ _ E). apply Eff_same; auto.
   - inversion H; subst. apply Eff_same; auto.
   - destruct (h_pend h) eqn:PE; [|inversion H; subst; apply Eff_same; auto].
     destruct (phase1 cfgs h) as [h1 ok] eqn:P1. inversion H; subst.
@@ -336,6 +356,17 @@ Proof.
     assert (E1 : Eff h h1 OPhase1) by (apply Eff_same; auto).
     eapply (Eff_compose h h1 _ OPhase1 OSweep OSweep); eauto.
     intros i k. right. apply B.
+  - destruct (expire_streams h) as [h1 ok] eqn:E. inversion H; subst. unfold expire_streams in E.
+    destruct ((r_snext (h_ret h) =? 0) || (h_now h <? r_snext (h_ret h))); [inversion E; subst; apply Eff_same; auto|].
+    destruct (ttl_loop _ _ _ _ _) as [[[[m q] fired] next] ok1]. inversion E; subst.
+    destruct (fold_clear_stream_same fired (set_ret h (mkRet m q next (r_rexp (h_ret h)) (r_rqueue (h_ret h)) (r_rnext (h_ret h))))) as (A & B).
+    apply Eff_same; auto.
+  - destruct (remove_channels h) as [h1 ok] eqn:E. inversion H; subst.
+    assert (B : h_bcast h' = h_bcast h).
+    { unfold remove_channels in E. destruct ((r_rnext (h_ret h) =? 0) || (h_now h <? r_rnext (h_ret h))); [inversion E; subst; auto|].
+      destruct (ttl_loop _ _ _ _ _) as [[[[m q] fired] next] ok1]. inversion E; subst. reflexivity. }
+    exists []. split; [rewrite app_nil_r; exact B|].
+    intros ch k. unfold departed, is_clear. rewrite andb_false_r. reflexivity.
 Qed.
 
 (* ------------------------------------------------------------ all schedules *)
@@ -457,10 +488,25 @@ Proof.
     { intros c2 e2 ST EX. split; [exact NW|]. exists e2. split; [|rewrite EX, NW; reflexivity].
       change (entry_at (set_chan h0 ch c2) ch k = Some e2).
       rewrite (upd_set_chan_aset h0 ch c0 c2 k e2 G1 ST), ck_eqb_refl. reflexivity. }
+    assert (NOWm : forall x t, h_now (touch_meta x ch t) = h_now x) by (intros; unfold touch_meta; destruct (0 <? t); reflexivity).
+    assert (NOWr : forall x, h_now (ret_touch cf x ch) = h_now x).
+    { intros. unfold ret_touch. destruct (has_stream (cf_mode cf)); auto. rewrite NOWm. reflexivity. }
+    assert (FINm : forall c2 e2, c_state c2 = aset key_eqb (c_state c0) k e2 -> e_exp e2 = h_now h0 + cf_keyttl cf ->
+               h_now (touch_meta (track (set_chan h0 ch c2) (ch, k) (h_now h0 + cf_keyttl cf)) ch (cf_mttl cf)) = h_now h /\
+               exists e, entry_at (touch_meta (track (set_chan h0 ch c2) (ch, k) (h_now h0 + cf_keyttl cf)) ch (cf_mttl cf)) ch k = Some e /\ e_exp e = h_now h + cf_keyttl cf).
+    { intros c2 e2 ST EX. destruct (FIN c2 e2 ST EX) as (A & e & B & C).
+      destruct (touch_meta_view (track (set_chan h0 ch c2) (ch, k) (h_now h0 + cf_keyttl cf)) ch (cf_mttl cf)) as (_ & _ & VE).
+      rewrite NOWm, VE. split; auto. exists e. auto. }
+    assert (FINr : forall c2 e2, c_state c2 = aset key_eqb (c_state c0) k e2 -> e_exp e2 = h_now h0 + cf_keyttl cf ->
+               h_now (ret_touch cf (track (set_chan h0 ch c2) (ch, k) (h_now h0 + cf_keyttl cf)) ch) = h_now h /\
+               exists e, entry_at (ret_touch cf (track (set_chan h0 ch c2) (ch, k) (h_now h0 + cf_keyttl cf)) ch) ch k = Some e /\ e_exp e = h_now h + cf_keyttl cf).
+    { intros c2 e2 ST EX. destruct (FIN c2 e2 ST EX) as (A & e & B & C).
+      destruct (ret_touch_view cf (track (set_chan h0 ch c2) (ch, k) (h_now h0 + cf_keyttl cf)) ch) as (_ & _ & VE).
+      rewrite NOWr, VE. split; auto. exists e. auto. }
     destruct (po_mode o) eqn:PM; destruct (aget key_eqb (c_state c0) k) as [e0|] eqn:CUR;
       try (rewrite TTb, andb_true_r in AD).
     all: try (destruct (po_refresh o) eqn:RF; inversion AD; subst;
-              [ eapply FIN; [reflexivity | reflexivity] | destruct R1 as [C|[C C2]]; discriminate ]; fail).
+              [ eapply FINm; [reflexivity | reflexivity] | destruct R1 as [C|[C C2]]; discriminate ]; fail).
     all: try (inversion AD; subst; destruct R1 as [C|[C _]]; discriminate; fail).
     all: destruct (cas_check (snd (chan_pos c0)) (po_exp o) _);
          [inversion AD; subst; destruct R1 as [C|[C _]]; discriminate|];
@@ -469,7 +515,7 @@ Proof.
          assert (ST1 : c_state c1 = c_state c0)
            by (destruct (has_stream (cf_mode cf)); [destruct (stream_add (c_stream c0) _ (cf_size cf))|]; inversion SC; reflexivity);
          destruct (if po_ver o =? 0 then _ else _) as [ver vep];
-         inversion AD; subst; eapply FIN; [simpl; rewrite ST1; reflexivity | reflexivity]. }
+         inversion AD; subst; eapply FINr; [simpl; rewrite ST1; reflexivity | reflexivity]. }
   destruct r1.
   - destruct tp; inversion H; subst.
     + destruct GOAL as (A & e & B & C); auto. destruct (po_idem o =? 0); simpl; split; eauto.
